@@ -1,7 +1,7 @@
 (* C07 — quorum threshold = floor(2n/3)+1 in node and contracts, BFT-safe.
    go_quorum / sol_quorum / ral_quorum are GENERATED from quorum.go, Messages.sol, governance.ral on every run. *)
 From Coq Require Import List ZArith Lia Bool.
-From WH Require Import gen.Extracted proofs.QuorumProofs.
+From WH Require Import gen.Extracted gen.ExtractedContractVerify proofs.QuorumProofs proofs.ContractVerifyProofs.
 Open Scope Z_scope.
 
 (* the node's threshold is floor(2n/3)+1, for every n >= 0 (unbounded) *)
@@ -28,6 +28,41 @@ Proof.
   intros n k Hn. rewrite sol_quorum_spec, ral_quorum_spec, go_quorum_spec by assumption.
   unfold sol_quorum_accepts, ral_quorum_accepts. rewrite Z.leb_le. split; reflexivity.
 Qed.
+
+(* The count test where it stands in the contracts.  sol_verifyVM / ral_parse_and_verify are GENERATED statement by statement from
+   Messages.sol verifyVM and governance.ral parseAndVerifyVAA (gen/x_contractverify.py) on every run, so the conditions under which the
+   quorum test is evaluated at all are part of what is proved: for every guardian count n >= 0, signature count k, set indices, expiry
+   and block times, each contract accepts exactly when the node's threshold is met and its other guards (non-empty known set, set not
+   expired unless current / governance VAAs only from the current set, version byte, every signature valid) pass. *)
+Theorem C07_sol_verifyVM_accepts_iff : forall n k vidx curidx exptime now sigs_valid, 0 <= n ->
+  sol_verifyVM n k vidx curidx exptime now sigs_valid = true <->
+  n <> 0 /\ (vidx = curidx \/ now <= exptime) /\ go_quorum n <= k /\ sigs_valid = true.
+Proof. exact sol_accepts_iff. Qed.
+
+Theorem C07_ral_parse_and_verify_accepts_iff : forall ver version_const vidx curidx n k gov sigs_ok, 0 <= n ->
+  ral_parse_and_verify ver version_const vidx curidx n k gov sigs_ok = true <->
+  ver = version_const /\ (gov = true -> vidx = curidx) /\ n <> 0 /\ go_quorum n <= k /\ sigs_ok = true.
+Proof. exact ral_accepts_iff. Qed.
+
+(* the statement's sentence, both directions: complete => accepted on chain (current set, valid signatures), incomplete => rejected
+   whatever else holds *)
+Theorem C07_complete_accepted_incomplete_rejected : forall n k idx exptime now ver, 1 <= n ->
+  (go_quorum n <= k ->
+     sol_verifyVM n k idx idx exptime now true = true /\ forall gov, ral_parse_and_verify ver ver idx idx n k gov true = true) /\
+  (k < go_quorum n ->
+     (forall vidx curidx sv, sol_verifyVM n k vidx curidx exptime now sv = false) /\
+     (forall vc vidx curidx gov sg, ral_parse_and_verify ver vc vidx curidx n k gov sg = false)).
+Proof.
+  intros n k idx exptime now ver Hn. split; intros Hq.
+  - split; [|intros gov]; [apply sol_accepts_iff | apply ral_accepts_iff]; intuition lia.
+  - split; intros; apply not_true_is_false; intros A; [apply sol_accepts_iff in A | apply ral_accepts_iff in A]; intuition lia.
+Qed.
+
+Example C07_contract_values :
+  sol_verifyVM 19 13 4 4 0 100 true = true /\ sol_verifyVM 19 12 4 4 0 100 true = false /\ sol_verifyVM 19 13 3 4 0 100 true = false /\
+  ral_parse_and_verify 1 1 4 4 19 13 false true = true /\ ral_parse_and_verify 1 1 3 4 19 12 false true = false /\
+  ral_parse_and_verify 1 1 3 4 19 13 true true = false.
+Proof. vm_compute. repeat split; reflexivity. Qed.
 
 (* more than two thirds, never more than n *)
 Theorem C07_bounds : forall n, 1 <= n -> 3 * go_quorum n > 2 * n /\ 1 <= go_quorum n <= n.
@@ -56,5 +91,8 @@ Print Assumptions C07_go_formula.
 Print Assumptions C07_go_no_overflow.
 Print Assumptions C07_contracts_agree.
 Print Assumptions C07_accept_iff.
+Print Assumptions C07_sol_verifyVM_accepts_iff.
+Print Assumptions C07_ral_parse_and_verify_accepts_iff.
+Print Assumptions C07_complete_accepted_incomplete_rejected.
 Print Assumptions C07_bounds.
 Print Assumptions C07_intersection.
